@@ -10,7 +10,8 @@
   clause                                   theorem(s)
   Equals exactly when …                    equals_iff, equals_iff_entries (+ equals_refl, equals_symm, equals_trans, equalsLoop_perm)
   Copy Equals the original                 copy_equals (value level), heap_copy_equals (through the heap)
-  Copy owns its metadata                   copy_owns_metadata, copy_fresh_store, reachable_invariants (+ alias_shares as the contrast)
+  Copy owns its metadata                   copy_owns_metadata, copy_writable (nil originals included), copy_fresh_store,
+                                           reachable_invariants (+ alias_shares as the contrast)
   CQRS Marshal/Unmarshal identity + name   marshal_round_trip, name_from_message, marshal_shape, marshal_isSome_iff, fallback_round_trips
   forwarder envelope identity              envelope_round_trip, envelope_round_trip_total, envelope_round_trip_equals, wrap_ok_iff,
                                            wrap_empty_destination, publisher_round_trip
@@ -247,6 +248,37 @@ theorem heap_copy_equals (h h' : Heap) (i : Nat) (hw : h.WF) (hm : h.Maps) (hc :
     simp [view, hobjs, hnew, copyMsg, setAll]
   exact ⟨m, hv, hvi, hvj, copy_equals m (view_wf hm hv)⟩
 
+open Heap in
+/-- **the copy owns a usable map, whatever the original looked like** – in particular when the original's
+    `Metadata` is nil (struct literal, `msg.Metadata = nil`, an envelope decoded from `"metadata": null`):
+    `copy.Metadata.Set(k, v)` does not panic, the copy then holds `v` under `k`, and the original is untouched -/
+theorem copy_writable (h h' : Heap) (i : Nat) (hw : h.WF) (hc : h.copy i = some h') (k v : String) :
+    ∃ g c, h'.setMeta h.objs.length k v = .ok g ∧ g.view h.objs.length = some c ∧ get c.md k = v ∧
+      c.metadata ≠ none ∧ g.view i = h.view i := by
+  obtain ⟨m, hv, hobjs, hlen, hold, hnew⟩ := copy_spec hc
+  obtain ⟨hj, holdref, hviews⟩ := copy_fresh_store h h' i hw hc
+  have hi : i < h.objs.length := by
+    unfold view at hv
+    cases ho : h.objs[i]? with
+    | none => simp [ho] at hv
+    | some o => exact (List.getElem?_eq_some_iff.mp ho).1
+  have hoj : h'.objs[h.objs.length]? = some ⟨m.uuid, m.payload, some h.stores.length⟩ := by
+    simp [hobjs]
+  refine ⟨h'.write h.stores.length k v, ⟨m.uuid, m.payload, some (set (h'.store h.stores.length) k v)⟩, ?_, ?_, ?_, ?_, ?_⟩
+  · simp [setMeta, hoj]
+  · have hlt : h.stores.length < h'.stores.length := by omega
+    simp [view, hoj, store_write_same h' hlt]
+  · simp [Msg.md, get, lookup_set]
+  · simp
+  · rw [view_write_of_ref_ne h' (holdref i hi), hviews i hi]
+
+/-- the nil case, evaluated: the copy of `&Message{UUID: "u"}` takes a write; the original still has no map -/
+example :
+    let h := (step (step Heap.empty (.lit "u" none)).1 (.copy 0)).1
+    (step h (.set 1 "k" "v")).2 = .done ∧ (step h (.set 0 "k" "v")).2 = .panic ∧
+    ((step h (.set 1 "k" "v")).1.view 0).map (·.metadata) = some none := by
+  decide
+
 /-- contrast (non-vacuity of "owns"): a shallow struct copy shares the map – a write through it shows in the original -/
 theorem alias_shares :
     let h := (step (step Heap.empty (.new "u" none)).1 (.alias 0)).1
@@ -309,6 +341,17 @@ theorem exec_invariants (ops : List Op) (h : Heap) (hw : h.WF) (hm : h.Maps) :
         cases ho : h.objs[i]? with
         | none => exact ⟨hw, hm⟩
         | some o => exact ⟨Heap.wf_setObj hw ho rfl, hm⟩
+      | rewrap i =>
+        simp only [step, Heap.decoded]
+        cases hv : h.view i with
+        | none => exact ⟨hw, hm⟩
+        | some m =>
+          cases hmd : m.metadata with
+          | none => simp only [hmd]; exact ⟨Heap.wf_lit hw _ _, hm⟩
+          | some md =>
+            cases hc : h.copy i with
+            | none => simp only [hmd, hc]; exact ⟨hw, hm⟩
+            | some h' => simp only [hmd, hc]; exact ⟨Heap.wf_copy hw hc, Heap.maps_copy hm hc⟩
     exact ih _ hstep.1 hstep.2
 
 theorem reachable_invariants (ops : List Op) : (exec Heap.empty ops).WF ∧ (exec Heap.empty ops).Maps :=
